@@ -7,6 +7,37 @@ From Coq Require Import String Ascii.
 From BT Require Import Base.Util Generated.Consts Model.AutoSql.
 Local Open Scope nat_scope.
 
+(* ---- the model's keyword constants are what they say ---- *)
+Definition bs (s : string) : list N := map N_of_ascii (list_ascii_of_string s).
+Lemma keywords_spelled :
+  K_lparen = bs "("
+  /\ K_rparen = bs ")"
+  /\ K_semi = bs ";"
+  /\ K_lbrack = bs "["
+  /\ K_rbrack = bs "]"
+  /\ K_int = bs "int"
+  /\ K_set = bs "set"
+  /\ K_auto = bs "auto"
+  /\ K_byte = bs "byte"
+  /\ K_char = bs "char"
+  /\ K_enum = bs "enum"
+  /\ K_uint = bs "uint"
+  /\ K_float = bs "float"
+  /\ K_index = bs "index"
+  /\ K_short = bs "short"
+  /\ K_table = bs "table"
+  /\ K_ubyte = bs "ubyte"
+  /\ K_bigint = bs "bigint"
+  /\ K_double = bs "double"
+  /\ K_object = bs "object"
+  /\ K_simple = bs "simple"
+  /\ K_string = bs "string"
+  /\ K_unique = bs "unique"
+  /\ K_ushort = bs "ushort"
+  /\ K_lstring = bs "lstring"
+  /\ K_primary = bs "primary".
+Proof. repeat split; reflexivity. Qed.
+
 (* ---- structural descriptions ---- *)
 Fixpoint drop_ws (l : list N) : list N :=
   match l with c :: r => if is_ws c then drop_ws r else l | [] => [] end.
